@@ -1,7 +1,6 @@
 package clienteng
 
 import (
-	"bytes"
 	"encoding/json"
 	"encoding/xml"
 	"fmt"
@@ -1008,10 +1007,11 @@ func (cf *config) judge(p *parsed) []finding {
 			out = append(out, finding{"fidelity|cookie|" + manner([]string{w.V}, g) + "|" + w.Cl, "cookie did not arrive with the configured value", det})
 		}
 	}
-	for k, g := range gotCk {
-		if _, ok := wantCk[k]; !ok {
+	for _, c := range p.Cookies {
+		if _, ok := wantCk[c.K]; !ok {
 			out = append(out, finding{"fidelity|cookie|unconfigured-key-arrived", "a cookie arrived that was never configured",
-				map[string]any{"name": strconv.QuoteToASCII(k), "received": hx(g)}})
+				map[string]any{"name": strconv.QuoteToASCII(c.K), "received": hx(gotCk[c.K])}})
+			break
 		}
 	}
 	// body
@@ -1327,5 +1327,3 @@ func runFidelity(e *ev.Env) {
 	})
 	e.Stat("server_requests", int64(rig.n))
 }
-
-var _ = bytes.Equal
